@@ -5,6 +5,7 @@ import (
 	"fmt"
 	"math/big"
 	"sort"
+	"strconv"
 	"strings"
 )
 
@@ -55,6 +56,8 @@ type UF struct {
 
 type Ctx struct {
 	tab   map[string]*Term
+	small map[[2]uint64]*Term // (width, value) -> bit-vector constant, fast path in front of intern
+	bools [2]*Term
 	next  int
 	Vars  []*Term // in creation order
 	UFs   map[string]*UF
@@ -76,9 +79,13 @@ func (c *Ctx) intern(t *Term) *Term {
 	}
 	sb.WriteByte('|')
 	sb.WriteString(t.Name)
-	fmt.Fprintf(&sb, "|%d|%d", t.I1, t.I2)
+	sb.WriteByte('|')
+	sb.WriteString(strconv.Itoa(t.I1))
+	sb.WriteByte('|')
+	sb.WriteString(strconv.Itoa(t.I2))
 	for _, a := range t.A {
-		fmt.Fprintf(&sb, ",%d", a.ID)
+		sb.WriteByte(',')
+		sb.WriteString(strconv.Itoa(a.ID))
 	}
 	k := sb.String()
 	if o, ok := c.tab[k]; ok {
@@ -118,16 +125,33 @@ func Signed(v *big.Int, w int) *big.Int {
 }
 
 func (c *Ctx) Bool(b bool) *Term {
-	v := big.NewInt(0)
+	i := 0
 	if b {
-		v = big.NewInt(1)
+		i = 1
 	}
-	return c.intern(&Term{Op: "const", S: BoolSort, V: v})
+	if t := c.bools[i]; t != nil {
+		return t
+	}
+	t := c.intern(&Term{Op: "const", S: BoolSort, V: big.NewInt(int64(i))})
+	c.bools[i] = t
+	return t
 }
 func (c *Ctx) True() *Term  { return c.Bool(true) }
 func (c *Ctx) False() *Term { return c.Bool(false) }
 
 func (c *Ctx) BV(v *big.Int, w int) *Term {
+	if w <= 64 && v.Sign() >= 0 && v.BitLen() <= w {
+		k := [2]uint64{uint64(w), v.Uint64()}
+		if t, ok := c.small[k]; ok {
+			return t
+		}
+		t := c.intern(&Term{Op: "const", S: BVSort(w), V: new(big.Int).Set(v)})
+		if c.small == nil {
+			c.small = map[[2]uint64]*Term{}
+		}
+		c.small[k] = t
+		return t
+	}
 	return c.intern(&Term{Op: "const", S: BVSort(w), V: norm(v, w)})
 }
 func (c *Ctx) BVu(v uint64, w int) *Term { return c.BV(new(big.Int).SetUint64(v), w) }
